@@ -23,6 +23,11 @@ func init() {
 			Calls: []string{"ExecuteOperation", "Append", "ErrorOrNil"}},
 		skelTarget{Name: "ObjectPatcher.ExecuteOperation", File: "pkg/kube/object_patch/patch.go", Recv: "ObjectPatcher", Func: "ExecuteOperation",
 			Calls: []string{"executeCreateOperation", "executeDeleteOperation", "executeFilterOperation", "executePatchOperation", "hasFilterFn"}},
+		// the two executors that write with Get ... Update under retry.RetryOnConflict (Model/Patch: updateAttempts, filterAttempts)
+		skelTarget{Name: "ObjectPatcher.executeFilterOperation", File: "pkg/kube/object_patch/patch.go", Recv: "ObjectPatcher", Func: "executeFilterOperation",
+			Calls: []string{"GroupVersionResource", "RetryOnConflict", "Get", "IsNotFound", "filterFunc", "DeepEqual", "Update", "SetResourceVersion"}},
+		skelTarget{Name: "ObjectPatcher.executeCreateOperation", File: "pkg/kube/object_patch/patch.go", Recv: "ObjectPatcher", Func: "executeCreateOperation",
+			Calls: []string{"toUnstructured", "GroupVersionResource", "Create", "IsAlreadyExists", "RetryOnConflict", "Get", "DeepCopy", "SetResourceVersion", "Update"}},
 		skelTarget{Name: "ShellOperator.handleRunHook", File: "pkg/shell-operator/operator.go", Recv: "ShellOperator", Func: "handleRunHook",
 			Calls: []string{"Run", "ParseOperations", "ExecuteOperations", "GetPatchStatusOperationsOnHookError", "SendBatch", "SetProp"}},
 	)
